@@ -230,3 +230,16 @@ def t_pb_tile():
         err, msg = 1., 'raised %s' % type(e).__name__
     report('F-C03-9', err < 1e-12, 'gradient of sum(tile(x,2)**2) vs 4x: %s' % msg)
 t_pb_tile()
+
+
+def t_pb_trace_tall():
+    x0 = numpy.arange(1., 7.).reshape(3, 2)
+    cg = CGraph(); x = Function(x0.copy()); y = algopy.trace(x)
+    f = y * y; cg.trace_off(); cg.independentFunctionList = [x]; cg.dependentFunctionList = [f]
+    try:
+        g = cg.gradient(x0); e = numpy.zeros((3, 2)); e[0, 0] = e[1, 1] = 2 * numpy.trace(x0)
+        err = abs(g - e).max(); msg = 'err %.2g' % err
+    except Exception as ex:
+        err, msg = 1., 'raised %s' % type(ex).__name__
+    report('F-C03-10', err < 1e-12, 'gradient of trace(x)**2 for a (3,2) matrix: %s' % msg)
+t_pb_trace_tall()
